@@ -15,6 +15,9 @@ import time
 REPO = os.environ.get('UCG_REPO', '/repo')
 VERIF = os.path.dirname(os.path.dirname(os.path.abspath(__file__)))
 CACHE = os.path.join(VERIF, '.cache')
+# scratch build location: fixed per checkout of /verif (so cargo's fingerprints of the dependencies stay valid) but not shared
+# between checkouts, whose runs are serialised by different locks
+SCRATCH = '/var/tmp/ucg-verif-build-' + hashlib.sha256(CACHE.encode()).hexdigest()[:8]
 TRACKED = ('src', 'std', 'bin', 'Cargo.toml', 'Cargo.lock', 'integration_tests', 'examples', 'example_errors', 'docsite/site/content/reference')
 ENV = dict(os.environ, CARGO_NET_OFFLINE='true')
 
@@ -86,7 +89,7 @@ def prepare(need_bin=True, no_cache=False, log=None):
         tree = os.path.join(tmp, 'tree')
         copy_tree(tree)
         # build in a fixed scratch location so cargo fingerprints of the dependencies stay valid
-        scratch = '/var/tmp/ucg-verif-build'
+        scratch = SCRATCH
         shutil.rmtree(scratch, ignore_errors=True)
         shutil.copytree(tree, scratch)
         env = dict(ENV, CARGO_TARGET_DIR=os.path.join(CACHE, 'target-nightly'))
@@ -158,7 +161,7 @@ def lsp_mir(d, log=None):
     try:
         if os.path.exists(out) and os.path.getsize(out) > 100000:
             return out
-        scratch = '/var/tmp/ucg-verif-build'
+        scratch = SCRATCH
         shutil.rmtree(scratch, ignore_errors=True)
         shutil.copytree(os.path.join(d, 'tree'), scratch)
         env = dict(ENV, CARGO_TARGET_DIR=os.path.join(CACHE, 'target-nightly'))
